@@ -11,7 +11,7 @@ CHECKS = {
     "C01": (
         "progmc c01",
         "bounded-depth state-space exploration: every statement sequence of length <= k over an 85-statement menu on a fixed typed environment, each compiled and executed by the real CLI, against a Python reference semantics of every menu statement",
-        "A program is a fixed prologue declaring a 15-variable environment (ints of four widths, bool, char, array, slice, struct, enum, optional, error union, ^mut pointer, function pointer), every sequence of <= 2 (thorough 3) statements from an 85-statement menu (arithmetic, casts, compound assignment, aggregate copies, enum/optional/error-union construction, switch with payloads and default arm, #unwrap/#is_variant, .try chains, pointer writes through three aliases, calls of helpers / lambdas / function pointers / varargs, while/loop/labelled break/continue, labelled block and if as values, early return) and an epilogue printing the whole environment: 7311 (thorough 621436) programs compiled by the real CLI and executed, stdout compared byte for byte with the reference semantics; plus a process-level family (main result as exit status for 7 result types, void main, early return, the four language-defined runtime faults: message, status 1, nothing after).",
+        "A program is a fixed prologue declaring a 15-variable environment (ints of four widths, bool, char, array, slice, struct, enum, optional, error union, ^mut pointer, function pointer), every sequence of <= 2 (thorough 3) statements from an 85-statement menu (arithmetic, casts, compound assignment, aggregate copies, enum/optional/error-union construction, switch with payloads and default arm, #unwrap/#is_variant, .try chains, pointer writes through three aliases, calls of helpers / lambdas / function pointers / varargs, while/loop/labelled break/continue, labelled block and if as values, early return) and an epilogue printing the whole environment: 7311 (thorough 621436) programs compiled by the real CLI and executed, stdout compared byte for byte with the reference semantics; plus a process-level family (main result as exit status for 7 result types, void main, early return, the four language-defined runtime faults: message, status 1, nothing after), an equality family (x == y, x != y, y == x for y = x and every single-leaf / variant mutant of x over 141 types incl. arrays of sum types) and the discriminant-pattern family shared with C11.",
         "Sequences of <= 3 statements (not 40), nesting <= 3, 8 globals; sub-expressions with side effects only at statement level so no evaluation order is assumed.",
         "§4 C01",
     ),
@@ -25,91 +25,91 @@ CHECKS = {
     "C10": (
         "progmc c10",
         "bounded-exhaustive enumeration of (container form, element type, length, access kind, index type, index value) and (sum type, placement, held variant, requested variant) cases, each compiled by the real CLI and executed in its own process, against a reference model of in-range access and of the abort behaviour",
-        "10 container forms (array, slice, ^array, ^mut array, ^^array, slice in a struct field, ^slice, outer and inner level of a nested array, array in a struct field) x 4 element types (u8, i32, i64, 12-byte struct) x lengths 1..4 x read / write / compound assignment / ^mut of the element x runtime indexes (through an opaque function) of type u8/u16/u32/u64/usize/u128 with values 0..n+4 and the type's boundaries 2^k-1, 2^k (u128: 2^64+k) (quick: full index alphabet for i32 x n=3, usize boundaries elsewhere; thorough: full product) and literal indexes 0..n+1; 12 sum types (enums with/without payloads and custom discriminants, optionals, ?^i32, error unions) x 5 placements x every (held, requested) pair for #unwrap incl. the 1-argument form. In range: exactly that element is read/written (whole container, the aliased array and guards printed afterwards). Out of range / wrong variant: the sentinel before the access is printed, then the message, wait status = exit 1 (not a signal), the sentinel after it never appears. Literal index >= n on a fixed array: rejected at compile time.",
+        "10 container forms (array, slice, ^array, ^mut array, ^^array, slice in a struct field, ^slice, outer and inner level of a nested array, array in a struct field) x 4 element types (u8, i32, i64, 12-byte struct) x lengths 1..4 x read / write / compound assignment / ^mut of the element x runtime indexes (through an opaque function) of type u8/u16/u32/u64/usize/u128 with values 0..n+4 and the type's boundaries 2^k-1, 2^k (u128: 2^64+k) (quick: full index alphabet for i32 x n=3, usize boundaries elsewhere; thorough: full product) and literal indexes 0..n+1; big arrays ([100]T, [20000]T, [6][16]i32) indexed with u8 / u16 / u32 values whose product with the element stride exceeds the index type; 12 sum types (enums with/without payloads and custom discriminants, optionals, ?^i32, error unions) x 5 placements x every (held, requested) pair for #unwrap incl. the 1-argument form. In range: exactly that element is read/written (whole container, the aliased array and guards printed afterwards). Out of range / wrong variant: the sentinel before the access is printed, then the message, wait status = exit 1 (not a signal), the sentinel after it never appears. Literal index >= n on a fixed array: rejected at compile time.",
         "The out-of-range access itself cannot be observed after exit; clean exit 1 for every huge index (2^31 .. 2^128-1) is what shows no wild access happened first. Arrays of zero-sized elements are not generated.",
         "§4 C10",
     ),
     "C04": (
         "progmc c04",
         "bounded-exhaustive enumeration of (result type, value, block placement) cases: the comptime copy (evaluated by the real comptime JIT) and the runtime copy of the same expression are both printed by an executable built by the real CLI and compared with the model value",
-        "33 result types (every int width incl. 128-bit at boundary values, f32/f64, bool, arrays incl. nested, structs incl. nested and float fields, enums with payloads and custom discriminants, optionals, error unions, arrays/structs of sum types; two values per top-level shape) x 8 placements (annotated global, local ::, local :=, inline argument, nested comptime, block with locals and a loop, block calling a helper, field of a struct literal) + 16 computing blocks (loops, helper calls, const-global reads, wrap-around at 8/32 bits, shifts, signed division, float->int, narrowing) each as local and as global + `type` results used as annotations + strings + 8 side-effect programs (marker printed exactly once by the compiler, never by the program, under 0/1/3 uses, in a loop, in a function called twice, second run).",
+        "33 result types (every int width incl. 128-bit at boundary values, f32/f64, bool, arrays incl. nested, structs incl. nested and float fields, enums with payloads and custom discriminants, optionals, error unions, arrays/structs of sum types; two values per top-level shape) x 8 placements (annotated global, local ::, local :=, inline argument, nested comptime, block with locals and a loop, block calling a helper, field of a struct literal) + 16 computing blocks (loops, helper calls, const-global reads, wrap-around at 8/32 bits, shifts, signed division, float->int, narrowing) each as local and as global + `type` results used as annotations + strings + 13 side-effect programs (marker printed exactly once by the compiler, never by the program, under 0/1/3 uses, in a loop, in a function called twice, second run; value-yielding, void and zero-sized blocks).",
         "Bodies are deterministic; pointer- and function-valued results are rejected by design and not generated; values beyond the listed ones are not covered.",
         "§4 C04",
     ),
     "C05": (
         "progmc c05",
         "bounded-exhaustive enumeration of binding skeletons x global configurations, each compiled by the real CLI, against a reference resolver (exact set of undefined-reference lines, or printed values of every use)",
-        "Every item sequence of <= 3 items with at most one nested construct over {declare a, declare b, block, if, while, switch arm with argument a/b, local lambda with parameter a/b, global function with comptime parameter a/b, comptime block with tail a/b}, nested to depth 2, a use of `a` and of `b` at every program point, x 4 global configurations (global a / b present or absent): programs with no undefined use are executed and every use must print the value of the binding the reference resolver picks; for the others the set of `undefined reference` diagnostics must be exactly the predicted lines and nothing else may be reported.",
+        "Every item sequence of <= 3 items with at most one nested construct over {declare a, declare b, block, if, while, switch arm with argument a/b (with a `nil` arm and with a default arm), local lambda with parameter a/b, global function with comptime parameter a/b, comptime block with tail a/b}, nested to depth 2, a use of `a` and of `b` at every program point, x 4 global configurations (global a / b present or absent): programs with no undefined use are executed and every use must print the value of the binding the reference resolver picks; for the others the set of `undefined reference` diagnostics must be exactly the predicted lines and nothing else may be reported.",
         "Uses inside a lambda / comptime body of a name bound in the creating function are not generated (the statement does not decide them); identifier pool {a, b}; depth 2.",
         "§4 C05",
     ),
     "C11": (
         "progmc c11",
         "bounded-exhaustive enumeration of (sum type, arm list) cases against the acceptance rule of the statement; every accepted switch executed on every variant x two payloads against a dispatch model",
-        "20 sum types (enums of 1..3 (thorough 4) variants with payload patterns none/u8/i64/struct and discriminants default or custom incl. 128, 200, 255; ?i32, ?struct, ?^i32, ?enum; Err!i32, Err!struct) x every arm list of length <= n+1 over {each variant fully qualified, each variant shorthand, `_`, a variant of a structurally identical foreign enum, an unknown shorthand, a non-type expression} (at most one non-own arm): accepted iff only own variants, none twice, and all covered or exactly one default arm which is last; accepted switches are executed for every variant with two payloads: exactly the arm of the variant runs, bound to the payload (default arm: the whole value). Plus switches over `distinct` wrappers of an enum, an optional and an error union.",
+        "20 sum types plus ~500 discriminant patterns (every assignment of {automatic, 0, 1, 2, 5} to 3 and 4 variants: exhaustive switch and the #is_variant matrix on every variant) (enums of 1..3 (thorough 4) variants with payload patterns none/u8/i64/struct and discriminants default or custom incl. 128, 200, 255; ?i32, ?struct, ?^i32, ?enum; Err!i32, Err!struct) x every arm list of length <= n+1 over {each variant fully qualified, each variant shorthand, `_`, a variant of a structurally identical foreign enum, an unknown shorthand, a non-type expression} (at most one non-own arm): accepted iff only own variants, none twice, and all covered or exactly one default arm which is last; accepted switches are executed for every variant with two payloads: exactly the arm of the variant runs, bound to the payload (default arm: the whole value). Plus switches over `distinct` wrappers of an enum, an optional and an error union.",
         "Lists that cover everything and also end in a default arm are executed but not judged for acceptance; 6-variant enums are not reached.",
         "§4 C11",
     ),
     "C13": (
         "progmc c13",
         "bounded-exhaustive enumeration of (context, expected type, provided nominal value) triples, each compiled by the real CLI, against the nominal acceptance rule; casts executed",
-        "13 expected types (D1, D2 :: distinct i32; D3 :: distinct D1; DU :: distinct u8; identical enums E1, E2 and their variants; identical structs S1, S2; i32, u8, i64) x 12 provided nominal values x 7 contexts (annotation, argument, return, struct field, optional payload, assignment, array element) + binary `+` / `==` between every pair of distinct values: accepted iff same nominal identity or variant -> own enum; untyped literals into every distinct integer type; explicit casts distinct <-> underlying executed and value-preserving.",
+        "13 expected types (D1, D2 :: distinct i32; D3 :: distinct D1; DU :: distinct u8; identical enums E1, E2 and their variants; identical structs S1, S2; i32, u8, i64) x 12 provided nominal values x 7 contexts (annotation, argument, return, struct field, optional payload, assignment, array element) + binary `+` / `==` between every pair of distinct values + every mix of a distinct value with a *typed* value of its own underlying type (both orders of + * == <, compound assignment both ways, if/else branches; distincts of i32, u8, u32, u64, i64): accepted iff same nominal identity or variant -> own enum; untyped literals into every distinct integer type; explicit casts distinct <-> underlying executed and value-preserving.",
         "underlying -> distinct, anonymous struct -> named struct and casts between two different distinct types are not judged (the statement does not decide them).",
         "§4 C13",
     ),
     "C14": (
         "progmc c14",
         "bounded-exhaustive enumeration of (root, access chain, parenthesisation, operation) cases against a reference mutability judgement; accepted programs executed against a reference memory model with aliases",
-        "10 roots (`:=` local, `::` local, value parameter, global, ^mut / ^ pointers bound by `:=`, by `::` and as parameters) x every well-typed chain of <= 3 (thorough 4) steps from {.field, [i], explicit deref, auto-deref, #unwrap} over a struct holding a struct, an array of structs, ^mut and ^ pointers, an optional struct, and arrays of ^ / ^mut pointers, optionally parenthesised x {=, +=, take ^, take ^mut and write through it}: accepted iff the place is writable by the statement's rule; accepted programs are executed and the root, every copy, and both pointees are printed and compared with a reference memory model.",
+        "13 roots (`:=` local, `::` local, value parameter, global, ^mut / ^ pointers bound by `:=`, by `::` and as parameters, pointers to arrays of pointers indexed through the pointer) x every well-typed chain of <= 3 (thorough 4) steps from {.field, [i], explicit deref, auto-deref, #unwrap} over a struct holding a struct, an array of structs, ^mut and ^ pointers, an optional struct, and arrays of ^ / ^mut pointers, optionally parenthesised x {=, +=, take ^, take ^mut and write through it}: accepted iff the place is writable by the statement's rule; accepted programs are executed and the root, every copy, and both pointees are printed and compared with a reference memory model.",
         "Paths that pass through immutable data and then through a ^mut pointer stored in it are not judged; pointers come only from ^e / ^mut e of a `:=` local.",
         "§4 C14",
     ),
     "C15": (
         "progmc c15",
         "bounded-exhaustive enumeration of the (expression kind, const position) matrix, each compiled by the real CLI, against the README's const rule; accepted cells executed",
-        "17 integer expression kinds (literal, `::` local of literal / of `::` local / of comptime block, global, global of global, comptime global, global declared after use, imported global (of global), `:=` local, `::` of `:=`, `::` of call, call, struct member, runtime parameter, runtime arithmetic) x {array length, enum discriminant, comptime argument} and 15 type expression kinds x {annotation, comptime type argument, array element type}, comptime parameters in every position: accepted iff const by the rule, rejections must be 'not constant' diagnostics; accepted array lengths are observed (`len`, last element) for lengths 1, 2, 5, 17, 100.",
+        "17 integer expression kinds (literal, `::` local of literal / of `::` local / of comptime block, global, global of global, comptime global, global declared after use, imported global (of global), `:=` local, `::` of `:=`, `::` of call, call, struct member, runtime parameter, runtime arithmetic) x {array length, enum discriminant, comptime argument} and 15 type expression kinds x {annotation, comptime type argument, array element type}, comptime parameters in every position, also declared after / between runtime parameters: accepted iff const by the rule, rejections must be 'not constant' diagnostics; accepted array lengths are observed (`len`, last element) for lengths 1, 2, 5, 17, 100.",
         "Arithmetic on literals, parenthesised literals and a bare comptime block in the position are not judged; extern globals are not generated.",
         "§4 C15",
     ),
     "C16": (
         "progmc c16",
         "bounded-exhaustive enumeration of (generic template, sequence of instantiation tuples, same file / imported) cases; generic calls and hand-substituted monomorphic copies are both executed and compared with a Python model of the template",
-        "10 generic templates with 1-3 comptime parameters (type, usize, struct type, distinct type) used in annotations, casts, array lengths, nested generic calls, inline header references `(comptime T: type, x: T) -> T`, varargs of T and field access x every sequence of 1..3 (thorough 4) instantiation tuples from the template's 3-5 tuple alphabet (equal tuples repeat, different tuples interleave) x generic defined in the same file / in an imported file: the generic calls and the calls of textually substituted copies print their results; both must equal the model.",
+        "11 generic templates with 1-3 comptime parameters (one with runtime and comptime parameters interleaved) (type, usize, struct type, distinct type) used in annotations, casts, array lengths, nested generic calls, inline header references `(comptime T: type, x: T) -> T`, varargs of T and field access x every sequence of 1..3 (thorough 4) instantiation tuples from the template's 3-5 tuple alphabet (equal tuples repeat, different tuples interleave) x generic defined in the same file / in an imported file: the generic calls and the calls of textually substituted copies print their results; both must equal the model.",
         "The substituted copy is produced by textual substitution in the generator; comptime blocks inside generic bodies are not generated (the compiler does not implement them: see the C05 known finding).",
         "§4 C16",
     ),
     "C19": (
         "progmc c19",
         "bounded-exhaustive enumeration of call signatures exercised in both directions across the C boundary, with the host gcc as reference model of the x86-64 System V convention",
-        "1285 (thorough ~3000) signatures: every single-parameter, return-only and identity signature over 13 scalars (every int width, f32, f64, bool, ^i32, ?^i32) and every struct of 1..2 fields (thorough 1..3; quick adds a 1/7 selection of the 3-field ones) over {u8, i16, i32, i64, f32, f64, [3]u8, [2]f32} plus byte-array structs of 15 sizes up to 64 and five 4/5-field mixes; every ordered pair over a 22-type selection; register pressure: 0..8 leading i64 fillers, 0..8 leading f64 fillers and mixed fillers before each of 12 structs. Each signature is exercised Capy -> C (extern function compiled by gcc prints what it received, returns a constant) and C -> Capy (C driver calls a Capy function through a function pointer); the transcripts must equal the generated constants.",
+        "2055 (thorough ~3100) signatures: every single-parameter, return-only and identity signature over 13 scalars (every int width, f32, f64, bool, ^i32, ?^i32) and every struct of 1..3 fields (quick: identity signature only for the 3-field ones) over {u8, i16, i32, i64, f32, f64, [3]u8, [2]f32} plus byte-array structs of 15 sizes up to 64 and five 4/5-field mixes; every ordered pair over a 22-type selection; register pressure: 0..8 leading i64 fillers, 0..8 leading f64 fillers and mixed fillers before each of 12 structs, and the same pressure in front of every two-eightbyte struct with a result returned in memory. Each signature is exercised Capy -> C (extern function compiled by gcc prints what it received, returns a constant) and C -> Capy (C driver calls a Capy function through a function pointer); the transcripts must equal the generated constants.",
         "gcc -O1 on the host is the reference; only x86-64 SysV is executed; 128-bit scalars are not passed.",
         "§4 C19",
     ),
     "C20": (
         "progmc c20",
         "bounded-exhaustive enumeration of (permutation of globals, assignment of globals to files) configurations of base programs, each compiled by the real CLI and executed, differential against the known result",
-        "7 base programs with 4 mutually dependent movable globals (const chain, type diamond, mutual recursion, comptime block depending on later globals, generic + const + type alias, enum with array-length constant, distinct type + comptime constant; thorough adds a 5-global base): quick = every permutation x 3 file assignments + every one of the 3^4 assignments to {main.capy, fa.capy, fb.capy} in canonical order (1071 programs); thorough = the full product of all permutations x all assignments. Cross-file references are rewritten to `file.name` with the imports added (import cycles included). Acceptance, stdout and exit status must equal the base program's result.",
+        "9 base programs with 4 mutually dependent movable globals (const chain, type diamond, mutual recursion, comptime block depending on later globals, generic + const + type alias, enum with array-length constant, annotated constants whose annotation is a later alias, alias chain + annotated struct constant, distinct type + comptime constant; thorough adds a 5-global base): quick = every permutation x 3 file assignments + every one of the 3^4 assignments to {main.capy, fa.capy, fb.capy} in canonical order (1377 programs); thorough = the full product of all permutations x all assignments. Cross-file references are rewritten to `file.name` with the imports added (import cycles included). Acceptance, stdout and exit status must equal the base program's result.",
         "4-5 movable globals per program (the quantifier allows 12).",
         "§4 C20",
     ),
     "C21": (
         "progmc c21",
         "exhaustive enumeration of configurations x compilation histories, each compiled repeatedly by the real CLI in fresh processes; byte equality of the object file and of the diagnostics is the oracle",
-        "74 configurations (21 valid multi-file programs from C20 in three orders/splits, 28 invalid variants with type errors / undefined references / missing imports / errors in two files, the 24 example programs of the repository which use the core module, one generated 129-type program) x 8 (thorough 14) compilations each: three fresh processes in fresh directories (one under a deeper path), one with ASLR disabled (setarch -R), one with a different environment, and after every ordered choice of <= 1 (thorough 2) predecessors out of 3 other programs compiled in the same working directory; main.o and the complete compiler output (timings and the working-directory prefix normalised) must be identical in all of them.",
+        "96 configurations (27 valid multi-file programs from C20 in three orders/splits, 36 invalid variants with type errors / undefined references / missing imports / errors in two files, the 24 example programs of the repository which use the core module, one generated 129-type program, 8 programs whose comptime block chooses between types with coinciding type ids, compiled 12 extra times) x 8 (thorough 14) compilations each: three fresh processes in fresh directories (one under a deeper path), one with ASLR disabled (setarch -R), one with a different environment, and after every ordered choice of <= 1 (thorough 2) predecessors out of 3 other programs compiled in the same working directory; main.o and the complete compiler output (timings and the working-directory prefix normalised) must be identical in all of them.",
         "Address-dependent hashing inside one process is observed through the repeated fresh processes, not enumerated; the link step is excluded (--no-exec).",
         "§4 C21",
     ),
     "C28": (
         "progmc c28",
         "bounded-exhaustive enumeration of import graphs over a directory tree and of single-deviation programs, each compiled by the real CLI (--verbose-ast local) and executed, against a reference path resolver",
-        "All 512 directed graphs (self-imports and cycles included) over main.capy, a.capy, d/b.capy with every edge spelled in one of three ways (canonical, `./`-prefixed, detour through `x/..`) (thorough: all three spelling rotations, plus graphs of <= 4 edges that involve d/e/c.capy): main prints `file.id` through every import path of length <= 3 and the output must be what the reference resolver predicts; every reachable file must be parsed exactly once and unreachable files never. 27 deviations: missing target, target not ending in .capy (3 forms), directory as target, targets outside cwd (3 forms incl. a sibling whose name has the cwd as prefix), a target inside the module directory by relative path, #mod of core / a good module / no mod.capy / no src / missing / 7 non-alphanumeric names, import relative to the importer rather than the cwd.",
+        "All 512 directed graphs (self-imports and cycles included) over main.capy, a.capy, d/b.capy with every edge spelled in one of three ways (canonical, `./`-prefixed, detour through `x/..`) (thorough: all three spelling rotations, plus graphs of <= 4 edges that involve d/e/c.capy): main prints `file.id` through every import path of length <= 3 and the output must be what the reference resolver predicts; every reachable file must be parsed exactly once and unreachable files never. 29 deviations: missing target, target not ending in .capy (3 forms), directory as target, targets outside cwd and module directory (5 forms incl. siblings whose names have the cwd / the module directory as prefix), a target inside the module directory by relative path, #mod of core / a good module / no mod.capy / no src / missing / 7 non-alphanumeric names, import relative to the importer rather than the cwd.",
         "<= 4 files in <= 3 directories (the quantifier allows 6 files).",
         "§4 C28",
     ),
     "C18": (
         "progmc c18",
         "bounded-exhaustive enumeration of types (reflection vs address arithmetic vs a reference layout calculator) and of type pairs (type-value equality), each program compiled with the real core module by the real CLI and executed",
-        "98 types (13 scalars, byte structs, 18 mixed structs, 7 enums, optionals, error unions, arrays, nestings, str/char/type/usize/isize/rawptr/any, pointers, slices, distinct types incl. distinct of distinct, ?^T, [0]T, structs of pointers/slices/types/enums): size_of / align_of / stride_of at runtime and inside comptime, the type info of each kind (int width and signedness, float width, array length / element type / element stride, pointer target and mutability, distinct sub type, struct member count / names / types / offsets, enum variant count / discriminant offset / per-variant discriminant and payload size, optional and error-union discriminant offset and is_non_zero), member offsets and element strides measured by address arithmetic on a real value, and `any.ty`; a 51 x 51 type-equality matrix (equal iff same type).",
+        "106 types (8 sum types nested in sum types that are reflected before their inner types, 13 scalars, byte structs, 18 mixed structs, 7 enums, optionals, error unions, arrays, nestings, str/char/type/usize/isize/rawptr/any, pointers, slices, distinct types incl. distinct of distinct, ?^T, [0]T, structs of pointers/slices/types/enums): size_of / align_of / stride_of at runtime and inside comptime, the type info of each kind (int width and signedness, float width, array length / element type / element stride, pointer target and mutability, distinct sub type, struct member count / names / types / offsets, enum variant count / discriminant offset / per-variant discriminant and payload size, optional and error-union discriminant offset and is_non_zero), member offsets and element strides measured by address arithmetic on a real value, and `any.ty`; a 51 x 51 type-equality matrix (equal iff same type).",
         "64-bit host only; the reference layout calculator is written from the documented representation rules; the tag position is taken from reflection and the reference, not from byte-diffing.",
         "§4 C18",
     ),
@@ -144,7 +144,7 @@ CHECKS = {
     "C03": (
         "progmc c03",
         "bounded-exhaustive enumeration of control skeletons against a defer-stack reference interpreter, each compiled and executed by the real CLI",
-        "Every control skeleton over {defer, print, block, labelled block, while, labelled while, loop, if, break, break `l, continue, continue `l, return, .try} with <= 4 items / depth 2 (thorough: <= 5 items / depth 3: 52970 skeletons) is compiled by the real CLI and run with both values of the branch-driving parameter; the printed character sequence (one letter per defer and per print) must equal the interpreter's, which checks exactly-once, LIFO, inner-before-outer and not-reached-not-run in one comparison.",
+        "Every control skeleton over {defer, print, block, labelled block, while, labelled while, loop, if, break, break `l, continue, continue `l, return, .try} with <= 4 items / depth 2 (thorough: <= 5 items / depth 3: 52970 skeletons), as the body of four function forms (`-> ?i32` with a tail value; void, `-> ?void` and `-> Err!void` bodies that fall off their end; quick: the three extra forms up to 3 items), is compiled by the real CLI and run with both values of the branch-driving parameter; the printed character sequence (one letter per defer and per print) must equal the interpreter's, which checks exactly-once, LIFO, inner-before-outer and not-reached-not-run in one comparison.",
         "Skeletons beyond the bound (7 items, depth 4) are not reached; deferred expressions are single prints.",
         "§4 C03",
     ),
@@ -158,7 +158,7 @@ CHECKS = {
     "C08": (
         "progmc c08",
         "bounded-exhaustive enumeration of (type, operator, operand tuple) and (source, target, value) over boundary values, compiled and executed by the real CLI, against big-integer / IEEE reference arithmetic",
-        "Every integer type (quick: 8/32/64/128-bit; thorough: all 12) x 16 binary and 3 unary operators x all pairs of 14 boundary operands, at runtime and (60 tuples per case) inside comptime; f32/f64 x 10 operators x 15x15 values incl. +-0, subnormal, inf, NaN; all 14x14 explicit numeric casts and all implicit conversions the language offers x boundary values; bool and char operators. Every evaluation is performed by an executable built by the real CLI and compared with Python big-integer arithmetic wrapped to the width, exact nearest-even int->float rounding and IEEE arithmetic.",
+        "Every integer type (all 12 widths in both tiers) x 16 binary and 3 unary operators x all pairs of 14 boundary operands, at runtime and inside comptime (60 tuples per case as one array-valued block, plus five scalar blocks typed as the result type); f32/f64 x 10 operators x 15x15 values incl. +-0, subnormal, inf, NaN; all 14x14 explicit numeric casts and all implicit conversions the language offers x boundary values; bool and char operators. Every evaluation is performed by an executable built by the real CLI and compared with Python big-integer arithmetic wrapped to the width, exact nearest-even int->float rounding and IEEE arithmetic.",
         "Operands are boundary values and their neighbours, not all 2^64 values; undefined cases of the statement (x/0, MIN/-1, shift >= width, out-of-range float->int) are not generated.",
         "§4 C08",
     ),
@@ -193,14 +193,14 @@ CHECKS = {
     "C06": (
         "capy-verif front-mc",
         "bounded-exhaustive input enumeration and deviation-bounded (1 edit) mutation of the corpus through the complete in-process pipeline in supervised worker processes",
-        "Every string of <= 2 (thorough 3) spellings over a 42-token alphabet in 4 wrappers, every corpus snippet unchanged (with codegen) and with every single-token edit, and 34 nesting families to depth 200 go through the real lex/parse/validate/index/lower/infer(+comptime JIT)/codegen pipeline; panics, aborts, verifier errors, timeouts and diagnostic-rendering failures are reported per input.",
+        "Every string of <= 2 (thorough 3) spellings over a 42-token alphabet in 4 wrappers, every corpus snippet unchanged (with codegen) and with every single-token edit, 34 nesting families to depth 200, and diagnostics of every height 1..34 (thorough 1..120) x 3 kinds x start lines around the 2/3/4-digit boundaries go through the real lex/parse/validate/index/lower/infer(+comptime JIT)/codegen pipeline; panics, aborts, verifier errors, timeouts and diagnostic-rendering failures are reported per input.",
         "In-process pipeline with fake_file_system = true as the repository's own tests use; 64 KiB inputs and double edits are not reached; comptime user-code timeouts are counted as inconclusive.",
         "§4 C06",
     ),
     "C07": (
         "capy-verif unsafe-mc + progmc c07",
         "bounded-exhaustive enumeration in two halves: (in process) the C06 families with the error / unsafe / object equivalence as oracle; (program level) every near-valid program of the C05/C11/C13/C14/C15 enumerations compiled alone by the real CLI with --verbose-types local, the two end states `rejected` and `built` must be the only ones",
-        "In process: on every compilation of the C06 families (token strings, every single-token edit of the corpus, pumps) no error diagnostic implies nothing is flagged unsafe and code generation succeeds, and a type error attached to an expression implies something is flagged unsafe. Program level: ~1 500 (thorough ~3 000) programs - each a well-typed program or the same program with exactly one type-, mutability-, const-, scope- or switch-breaking deviation - are built one by one by the real CLI in the mode in which its own assert is live; each must end either rejected (>= 1 error, no object, no executable, exit 1) or built (0 errors, object, executable, exit 0, nothing UNSAFE TO COMPILE, no internal error).",
+        "In process: on every compilation of the C06 families (token strings, every single-token edit of the corpus, pumps) no error diagnostic implies nothing is flagged unsafe and code generation succeeds, and a type error attached to an expression implies something is flagged unsafe. Program level: ~1 500 (thorough ~3 000) programs - each a well-typed program or the same program with exactly one type-, mutability-, const-, scope- or switch-breaking deviation, plus 24 programs in which comptime code reaches erroneous code in the same / an imported file (the erroneous function must not even run at compile time) - are built one by one by the real CLI in the mode in which its own assert is live; each must end either rejected (>= 1 error, no object, no executable, exit 1) or built (0 errors, object, executable, exit 0, nothing UNSAFE TO COMPILE, no internal error).",
         "Which end state a program should reach is decided by the other properties; findings are listed by input (hash lists / narrow input patterns), so a new input that breaks the equivalence is still reported.",
         "§4 C07",
     ),
